@@ -277,6 +277,7 @@ def check(prog, rep):
     shared.rule_patch_isolation(prog, rep, "R7")
     from .c04 import rule_gap_is_loud
     rep.guarded(rule_gap_is_loud, prog, rep, "R9")
+    rep.guarded(rule_nothing_to_parameterise_is_loud, prog, rep, "R10")
     # ------------------------------------------------------------------ R6
     r6 = rep.rule("R6", "a structure without atoms fails before any output on every path", floor=1)
     pi = order.get("print_pqr", (None,))[0]
@@ -330,3 +331,48 @@ def check(prog, rep):
             ok = st == "full" and abs(q - c.expected) <= 5e-4
             r5.add(f"option|parse:{c.lookup}:{c.pos}", ok, f"PARSE {c.lookup} is {st}" + (f", sum {q:+.4f} vs {c.expected:+d}" if q is not None else ""),
                    "pdb2pqr/dat/PARSE.DAT")
+
+
+def rule_nothing_to_parameterise_is_loud(prog, rep, rid="R10"):
+    """main.is_repairable (with the counts it reads from the Biomolecule) is evaluated on model structures: a structure in which no residue is
+    one pdb2pqr has a template for (only hetero groups, ions, waters, unknown residue names) and no ligand file must stop the run with an
+    error - otherwise every atom stays without parameters and a PQR file with no atom records is written; a complete peptide needs no repair;
+    a peptide that lost one side-chain atom is repairable."""
+    from ..guards import Flow, Obj
+    from ..objinterp import ObjRunner
+    r = rep.rule(rid, "a structure without any residue pdb2pqr knows is refused (no empty output); complete and slightly incomplete peptides go on", floor=3)
+    fn = prog.func("main.py", "is_repairable")
+    where = f"pdb2pqr/main.py:{fn.node.lineno} (is_repairable)"
+
+    def atom(nm):
+        return Obj({"__class__": "Atom", "name": nm, "bonds": [], "__props__": {"is_hydrogen": lambda a_: a_["name"].startswith("H")}})
+
+    def residue(cls, name, names, refnames=None):
+        amap = {n: atom(n) for n in names}
+        ref = None if refnames is None else Obj({"__class__": "DefinitionResidue", "name": name, "map": {n: Obj({"__class__": "DefinitionAtom", "name": n}) for n in refnames}})
+        return Obj({"__class__": cls, "name": name, "atoms": list(amap.values()), "map": amap, "reference": ref, "missing": [], "res_seq": 1, "chain_id": "A", "ins_code": ""})
+
+    ala = ["N", "CA", "C", "O", "CB", "H", "HA", "HB1", "HB2", "HB3"]
+    lys = ["N", "CA", "C", "O", "CB", "CG", "CD", "CE", "NZ", "H", "HA"]
+    cases = {
+        "hetero groups, an ion and waters only": ([residue("LIG", "GOL", ["C1", "O1", "C2", "O2", "C3", "O3"]), residue("LIG", "SO4", ["S", "O1", "O2", "O3", "O4"]),
+                                                   residue("LIG", "ZN", ["ZN"]), residue("WAT", "HOH", ["O"]), residue("WAT", "HOH", ["O"])], False, "raise"),
+        "the same with a ligand file": ([residue("LIG", "GOL", ["C1", "O1", "C2", "O2", "C3", "O3"]), residue("WAT", "HOH", ["O"])], True, False),
+        "a complete peptide with a water and an ion": ([residue("ALA", "ALA", ala[:5], ala), residue("LYS", "LYS", lys[:9], lys), residue("ALA", "ALA", ala[:5], ala),
+                                                        residue("WAT", "HOH", ["O"]), residue("LIG", "ZN", ["ZN"])], False, False),
+        "a peptide of four residues missing one side-chain atom": ([residue("ALA", "ALA", ala[:5], ala), residue("LYS", "LYS", lys[:8], lys), residue("ALA", "ALA", ala[:5], ala),
+                                                                    residue("LYS", "LYS", lys[:9], lys), residue("LIG", "SO4", ["S", "O1", "O2", "O3", "O4"])], False, True),
+    }
+    for label, (residues, has_ligand, want) in cases.items():
+        atoms = [a for res in residues for a in res["atoms"]]
+        bio = Obj({"__class__": "Biomolecule", "residues": residues, "atoms": atoms, "chains": []})
+        run = ObjRunner(prog, "main.py")
+        try:
+            got = run.call_function("main.py", "is_repairable", bio, has_ligand)
+        except Flow as fl:
+            got = "raise" if fl.kind == "raise" else f"{fl.kind}"
+            detail = str(fl.value)[:80]
+        else:
+            detail = ""
+        r.add(f"repairable|{label}", got == want, f"{label}: is_repairable -> {got!r} {detail}; expected {want!r}" +
+              ("" if got == want or want != "raise" else " (the run goes on with nothing it can parameterise and writes a file without atoms)"), where)
